@@ -26,13 +26,14 @@ BUDGET = {'quick': 6000, 'thorough': 160000}
 EXHAUSTIVE_DOMAINS = {
     'int_lattice': 'Int(min,max) over {None,0,1,2}^2 x noneable x frozen(default=min-ish): all ordered pairs',
     'list_lattice': 'List(Int, min_size, max_size) over {0,1,2} x {None,0,1,2} x noneable: all ordered pairs',
+    'vtuple_lattice': 'variable-length Tuple(Int, min_size, max_size) over {0,1,2} x {None,0,1,2,3}: all ordered pairs',
     'enum_vs_int': 'base Int(min,max) over {None,0,1,2}^2 x child Enum over every non-empty subset of {-1,0,1,2,3}',
     'union_overlap': 'Union of Bool and Int(min,max) over {None,0,2}^2 in both orders, bare or as List element x every ordered pair '
                      'of values from {True,False,-1,0,1,2,3,"s"} applied to one spec object vs fresh equal specs',
 }
 REJECT = (TypeError, ValueError, KeyError)
 DERIVE = ['same', 'min+', 'min-', 'max+', 'max-', 'nomin', 'nomax', 'noneable', 'default', 'frozen',
-          'size+', 'size-', 'elem', 'enum-', 'enum+', 'field+', 'field-', 'cand+', 'kind', 'inner', 'to-enum']
+          'size+', 'size-', 'elem', 'enum-', 'enum+', 'field+', 'field-', 'cand+', 'kind', 'inner', 'to-enum', 'nomaxsize']
 
 
 OVERLAP_VALUES = [True, False, -1, 0, 1, 2, 3, 's']
@@ -100,6 +101,15 @@ def exhaustive(tier):
           out.append(d)
     return out
 
+  def vtuples():
+    out = []
+    for lo in (0, 1, 2):
+      for hi in [None, 0, 1, 2, 3]:
+        if hi is not None and hi < lo:
+          continue
+        out.append({'t': 'vtuple', 'elem': {'t': 'int', 'min': None, 'max': None}, 'min': lo, 'max': hi})
+    return out
+
   vals = [[0, [0]], [0, [1]], [0, [2]], [1, [0]], [1, [1]], [1, [2]], [2, [0]], [2, [1]], [3, [0]], [3, [1]]]
 
   def pairs(descs):
@@ -124,7 +134,8 @@ def exhaustive(tier):
         for wrap in ('none', 'list'):
           for x, y in itertools.product(OVERLAP_VALUES, repeat=2):
             yield {'overlap': {'lo': lo, 'hi': hi, 'bool_first': bool_first, 'str': False, 'wrap': wrap}, 'seq': [x, y]}
-  return {'int_lattice': pairs(ints()), 'list_lattice': pairs(lists()), 'enum_vs_int': enums(), 'union_overlap': overlaps()}
+  return {'int_lattice': pairs(ints()), 'list_lattice': pairs(lists()), 'vtuple_lattice': pairs(vtuples()),
+          'enum_vs_int': enums(), 'union_overlap': overlaps()}
 
 
 def _derive(d, kind, arg):
@@ -186,6 +197,11 @@ def _derive(d, kind, arg):
     if hi is not None and hi < lo:
       hi = lo
     d['min'], d['max'] = lo, hi
+    return d
+  if kind == 'nomaxsize' and t in ('list', 'vtuple'):
+    d['max'] = None
+    if arg % 2:
+      d['min'] = (d.get('min') or 0) + 1
     return d
   if kind == 'elem' and t in ('list', 'vtuple'):
     d['elem'] = _derive(d['elem'], DERIVE[(arg * 3 + 1) % 10], arg)
